@@ -141,10 +141,15 @@ func NewFBDNSDB(handlerConfig HandlerConfig, dbConfig DBConfig, cacheConfig Cach
 		return nil, err
 	}
 	go func() {
-		for s := range tdb.ReloadChan {
-			err := tdb.Reload(s)
-			if err != nil {
-				glog.Errorf("Failed to reload: %v", err)
+		for {
+			select {
+			case <-tdb.done:
+				return
+			case s := <-tdb.ReloadChan:
+				err := tdb.Reload(s)
+				if err != nil {
+					glog.Errorf("Failed to reload: %v", err)
+				}
 			}
 		}
 	}()
@@ -200,6 +205,16 @@ func prepareDBWatcher(watchPath string) (*fsnotify.Watcher, error) {
 	return watcher, nil
 }
 
+// SignalReload hands a reload signal to the reloading goroutine. It gives up
+// when the database is closed: ReloadChan is never closed, so that a signal
+// source racing with Close cannot send on a closed channel.
+func (h *FBDNSDB) SignalReload(s ReloadSignal) {
+	select {
+	case h.ReloadChan <- s:
+	case <-h.done:
+	}
+}
+
 // PeriodicDBReload is to enforce db reload in case db watch fails or stuck
 func (h *FBDNSDB) PeriodicDBReload(reloadInt int) {
 	d := time.Duration(reloadInt) * time.Second
@@ -209,7 +224,7 @@ func (h *FBDNSDB) PeriodicDBReload(reloadInt int) {
 		case <-h.done:
 			return
 		case <-ticker.C:
-			h.ReloadChan <- *NewPartialReloadSignal()
+			h.SignalReload(*NewPartialReloadSignal())
 		}
 	}
 }
@@ -227,7 +242,7 @@ func (h *FBDNSDB) watchDBAndReload(watcher *fsnotify.Watcher) (err error) {
 			return nil
 		case ev := <-watcher.Events:
 			if filterEvent(ev.Op) && path.Clean(ev.Name) == h.dbConfig.Path {
-				h.ReloadChan <- *NewPartialReloadSignal()
+				h.SignalReload(*NewPartialReloadSignal())
 			}
 		}
 	}
@@ -286,14 +301,14 @@ func (h *FBDNSDB) watchControlDirAndReload(watcher *fsnotify.Watcher) (err error
 			switch name {
 			case ControlFilePartialReload:
 				glog.Infof("Found patial reload trigger file")
-				h.ReloadChan <- *NewPartialReloadSignal()
+				h.SignalReload(*NewPartialReloadSignal())
 			case ControlFileFullReload:
 				glog.Infof("Found full reload trigger file")
 				newPath, err := getNewDBPath(cp)
 				if err != nil {
 					return fmt.Errorf("getting new DB path: %w", err)
 				}
-				h.ReloadChan <- *NewFullReloadSignal(newPath)
+				h.SignalReload(*NewFullReloadSignal(newPath))
 			default:
 				glog.Infof("Ignoring unknown file in control directory: %s", name)
 			}
@@ -403,14 +418,13 @@ func (h *FBDNSDB) cacheAdd(epoch uint64, key string, entry cacheEntry) {
 	}
 }
 
-// Close closes the database. It also takes care of closing the channel used
-// for periodic reloading.
+// Close closes the database. It also stops the goroutines used for reloading
+// (they watch the done channel).
 func (h *FBDNSDB) Close() {
 	h.reloadMu.Lock()
 	defer h.reloadMu.Unlock()
 	glog.Infof("Closing DB")
 	close(h.done)
-	close(h.ReloadChan)
 	h.dnsdb.Destroy()
 }
 
